@@ -46,9 +46,9 @@ func WriteManifest(propsFile string) error {
 		if tech == "" {
 			tech = "static analysis over go/types + go/ssa: dominance guards, ownership (who-may-write/call), must-pass-through paths, constant-table checks"
 		}
-		text := "Static structural necessary conditions, decided on every path / every writer / every table entry of the current source: " + pr.Clauses + " Not covered (runtime quantities): " + pr.NotCovered
+		text := "Static structural necessary conditions, decided on every path / every writer / every table entry of the current source: " + pr.AllClauses() + " Not covered (runtime quantities): " + pr.NotCovered
 		if pr.Level == "proof" {
-			text = "All obligations are decided exhaustively by abstract (bit-provenance / table) evaluation of the source and together imply the stated property: " + pr.Clauses + " Not covered: " + pr.NotCovered
+			text = "All obligations are decided exhaustively by abstract (bit-provenance / table) evaluation of the source and together imply the stated property: " + pr.AllClauses() + " Not covered: " + pr.NotCovered
 		}
 		checks = append(checks, chk{
 			"property_id":         rec.ID,
